@@ -167,6 +167,68 @@ def _svariant(sa, call, D, ntr, v, k):
     return sa
 
 
+# ---- defensive observation of what the real code returned -----------------------------------------------------------------------
+# Whatever comes back from the library is looked at through these: a value that is not what the property promises (None, a list,
+# a string, an object / string / complex array, NaN, another shape) becomes the negative observation of the clause it belongs to
+# (odtype / oshape for "shape and dtype are preserved", map -1 / "blurred" for the roll and delay clauses, 99900 / "bad" for the
+# estimate clauses) - never an exception of the harness.
+
+def _oshape(out):
+    """the shape of a returned value as a list of integers; [-1] if it has none (a ragged list, say)"""
+    try:
+        return [int(x) for x in np.shape(out)]
+    except Exception:  # noqa
+        return [-1]
+
+
+def _odtype(out):
+    """the name the trace records for the element type of a returned value: 'f4' / 'f8' for float32 / float64 *arrays*, else a
+    description that equals no dtype name (the property promises an array of the dtype of the input)"""
+    if not isinstance(out, np.ndarray):
+        return "not an ndarray (" + type(out).__name__[:40].replace('"', "").replace("\\", "") + ")"
+    return DTNAME.get(out.dtype) or str(out.dtype).replace('"', "").replace("\\", "")[:60]
+
+
+def _values(out, shape):
+    """float64 copy of a returned value if it has the promised shape and real, numeric contents - else None (not measurable)"""
+    try:
+        a = np.asarray(out)
+        if a.shape != tuple(shape) or not np.isrealobj(a):
+            return None
+        return a.astype(np.float64)
+    except Exception:  # noqa  an object / string array that does not convert
+        return None
+
+
+def _resid(a, ref):
+    """relative residual |a - ref| / |ref| of a returned waveform against the expected one; 9.0 when it cannot be measured
+    (another shape, contents that are not numbers, not finite)"""
+    try:
+        a = np.asarray(a)
+        if a.shape != ref.shape:
+            return 9.0
+        if a.dtype.kind == "O":
+            a = a.astype(np.float64)
+        elif a.dtype.kind not in "fiubc":       # strings, bytes, dates: not a waveform
+            return 9.0
+        r = float(np.linalg.norm(a - ref) / np.linalg.norm(ref))
+        return r if np.isfinite(r) else 9.0
+    except Exception:  # noqa
+        return 9.0
+
+
+def _centi(x):
+    """a returned delay in 1/100 sample as an integer TLC can hold; 99900 (= 999 samples, the marker the records always used for
+    'no estimate') when it is not a finite real number; clamped to +-99900 (the applied delays are within +-3 samples)"""
+    try:
+        x = float(x)
+    except Exception:  # noqa
+        return 99900
+    if not np.isfinite(x):
+        return 99900
+    return int(max(-99900, min(99900, round(x * 100))))
+
+
 def fshift_experiment(n, ntr, axis, dt, D, calls, form=0, basis=True, seed=0, var=""):
     """run one experiment on the real code; returns the trace record"""
     from ibldsp.fourier import fshift
@@ -240,11 +302,13 @@ def fshift_experiment(n, ntr, axis, dt, D, calls, form=0, basis=True, seed=0, va
                 obs[ic]["untouched"] = False
             if sbkeep is not None and not np.array_equal(sbufs[ic], sbkeep, equal_nan=True):
                 obs[ic]["untouched"] = False
-            if tuple(np.shape(out)) != shape and obs[ic]["oshape"] == list(shape):      # sticky once wrong
-                obs[ic]["oshape"] = [int(x) for x in np.shape(out)]
-            if DTNAME.get(np.asarray(out).dtype) != dt and obs[ic]["odtype"] == dt:
-                obs[ic]["odtype"] = str(np.asarray(out).dtype)
+            if _oshape(out) != list(shape) and obs[ic]["oshape"] == list(shape):      # sticky once wrong
+                obs[ic]["oshape"] = _oshape(out)
+            if _odtype(out) != dt and obs[ic]["odtype"] == dt:
+                obs[ic]["odtype"] = _odtype(out)
             outs.append(out)
+            if not isinstance(out, np.ndarray):
+                break           # nothing a caller could hand to the next call as "the shifted array" (recorded above)
             cur, buf = out, None
         return outs
 
@@ -259,10 +323,10 @@ def fshift_experiment(n, ntr, axis, dt, D, calls, form=0, basis=True, seed=0, va
             tv[np.arange(nt), where] = 1
             outs = run(arr)
             for ic, out in enumerate(outs):
-                out = np.asarray(out)
-                if out.shape != shape or not np.isrealobj(out):
+                out = _values(out, shape)
+                if out is None:
                     continue
-                ov = _traces_view(out.astype(np.float64), ntr, axis)
+                ov = _traces_view(out, ntr, axis)
                 j = np.argmax(ov, axis=1)
                 ideal = np.zeros_like(ov)
                 ideal[np.arange(nt), j] = 1
@@ -293,18 +357,21 @@ def fshift_experiment(n, ntr, axis, dt, D, calls, form=0, basis=True, seed=0, va
         outs = run(arr)
         X1 = np.fft.rfft(x_in, axis=1)[:, 1]
         for ic, out in enumerate(outs):
-            out = np.asarray(out)
-            if out.shape != shape or not np.isrealobj(out):
+            out = _values(out, shape)
+            if out is None:
                 obs[ic]["q"] = ["blurred"] * nt
                 continue
-            y = _traces_view(out.astype(np.float64), ntr, axis)
-            Y1 = np.fft.rfft(y, axis=1)[:, 1]
-            d = -np.angle(Y1 / X1) * n / (2 * np.pi)
-            mdr = np.round(d * D)
-            sharp = np.abs(d * D - mdr) <= 1e-3 * D
-            ref = sig(mdr / D)
-            # the input was rounded to dtype: compare with the delayed analytic signal, tolerance relative
-            res = np.linalg.norm(y - ref, axis=1) / np.linalg.norm(x_in, axis=1)
+            y = _traces_view(out, ntr, axis)
+            with np.errstate(all="ignore"):
+                Y1 = np.fft.rfft(y, axis=1)[:, 1]
+                d = -np.angle(Y1 / X1) * n / (2 * np.pi)
+                mdr = np.round(d * D)
+                meas = np.isfinite(mdr)             # NaN / inf in the output: no delay to measure, "blurred"
+                mdr = np.where(meas, mdr, 0)
+                sharp = meas & (np.abs(d * D - mdr) <= 1e-3 * D)
+                ref = sig(mdr / D)
+                # the input was rounded to dtype: compare with the delayed analytic signal, tolerance relative
+                res = np.linalg.norm(y - ref, axis=1) / np.linalg.norm(x_in, axis=1)
             tol = TOL[dt]
             for t in range(nt):
                 obs[ic]["md"][t] = int(mdr[t]) % (n * D)
@@ -449,9 +516,9 @@ def estimate_records(ctx):
                 ok = ok and (w2buf is None or np.array_equal(w2buf, kb2, equal_nan=True))
             except Exception:  # noqa
                 resync, sc = np.zeros(0), 999.0
-            ok = ok and np.shape(resync) == w.shape
-            r = float(np.linalg.norm(resync - wkeep) / np.linalg.norm(wkeep)) if np.shape(resync) == w.shape else 9.0
-            est.append([d10 * 10, int(round(sc * 100)) if np.isfinite(sc) else 99900, "ok" if r <= 0.05 else "bad"])
+            ok = ok and _oshape(resync) == list(w.shape)
+            r = _resid(resync, wkeep)
+            est.append([d10 * 10, _centi(sc), "ok" if r <= 0.05 else "bad"])
             ctx.count(1, key=("est", label, d10))
         recs.append(dict(base, fn="wave_shift_corrmax", label=label, n=int(w.size), est=est, shape_ok=bool(ok)))
     # shift_waveform: a cluster of copies of one multi-trace waveform, a minority of them shifted
@@ -484,15 +551,25 @@ def estimate_records(ctx):
             wav = wav * sc
             keep, bkeep = cluster.copy(), (None if cbuf is None else cbuf.copy())
             out, applied = shift_waveform(cluster)
-            ok = np.shape(out) == cluster.shape and np.array_equal(cluster, keep) and np.all(np.isfinite(applied))
+            ok = _oshape(out) == list(cluster.shape) and np.array_equal(cluster, keep)
             ok = ok and (cbuf is None or np.array_equal(cbuf, bkeep, equal_nan=True))
         except Exception:  # noqa
             out, applied, ok = None, [0.0] * nsp, False
+        try:
+            # one applied shift per spike, as finite numbers; anything else (None, a scalar, a shorter vector, strings) is recorded
+            # as "no estimate" (99900) for every spike
+            applied = np.asarray(applied, dtype=np.float64).reshape(-1)
+            if applied.size != nsp:
+                raise ValueError("not one shift per spike")
+            ok = ok and bool(np.all(np.isfinite(applied)))
+            out = np.asarray(out) if ok else None
+        except Exception:  # noqa
+            out, applied, ok = None, [np.nan] * nsp, False
         est = []
         for j in range(nsp):
-            r = float(np.linalg.norm(out[j] - wav) / np.linalg.norm(wav)) if ok else 9.0
+            r = _resid(out[j], wav) if ok else 9.0
             # shift_waveform reports the shift it applied to undo the delay: minus the delay
-            est.append([int(round(shifts[j] * 100)), int(round(-float(applied[j]) * 100)), "ok" if r <= 0.05 else "bad"])
+            est.append([int(round(shifts[j] * 100)), _centi(-applied[j]), "ok" if r <= 0.05 else "bad"])
             ctx.count(1, key=("cluster", label, j))
         recs.append(dict(base, fn="shift_waveform", label=label, n=int(wav.shape[1]), est=est, shape_ok=bool(ok)))
     return recs
@@ -548,8 +625,8 @@ def replay_roll_case(c, dt, seed=0):
             y = fshift(x, s, axis=c["axis"])
     except Exception as ex:  # noqa
         return f"raised {type(ex).__name__}: {ex}" + held
-    if np.shape(y) != shape or y.dtype != x.dtype:
-        return f"shape/dtype {np.shape(y)}/{getattr(y, 'dtype', None)}" + held
+    if not isinstance(y, np.ndarray) or y.shape != shape or y.dtype != x.dtype:
+        return f"shape/dtype {_oshape(y)}/{getattr(y, 'dtype', type(y).__name__)}" + held
     if not np.array_equal(x, keep) or (bkeep is not None and not np.array_equal(buf, bkeep, equal_nan=True)):
         return "input array modified" + held
     if isinstance(skeep, np.ndarray) and not (np.array_equal(s, skeep) and s.dtype == skeep.dtype):
@@ -593,6 +670,13 @@ def replay_parabolic(cases):
                 ip, mx = parabolic_max(x)
             except Exception as ex:  # noqa
                 bad.append((lst[0][2], (type(ex).__name__, "2d", np.dtype(dt).name, how)))
+                continue
+            try:        # one interpolated index and one maximum per row
+                ip, mx = np.asarray(ip, dtype=np.float64), np.asarray(mx, dtype=np.float64)
+                if ip.shape != (len(lst),) or mx.shape != (len(lst),):
+                    raise ValueError(f"results of shape {ip.shape}, {mx.shape} for {len(lst)} rows")
+            except Exception as ex:  # noqa
+                bad.append((lst[0][2], (f"{type(ex).__name__}: {ex}"[:120], "2d", np.dtype(dt).name, how)))
                 continue
             for k, (v, want, c) in enumerate(lst):
                 if not (abs(ip[k] - want[0]) <= 1e-9 and abs(mx[k] - want[1]) <= 1e-9):
